@@ -22,7 +22,9 @@ EXTENDS CombinatorOps, SequencesExt, TLC
 CONSTANTS TopoId,     \* which built-in topology
           Runs,       \* set of beaconing runs (each has its own timestamp / expiry settings)
           MaxSegs,    \* at most this many up, core and down segments are supplied
-          MaxLen      \* longest beacon (AS entries)
+          MaxLen,     \* longest beacon (AS entries)
+          HopLimit,   \* most hop fields a path header holds (64 in SCION; small here so that it bites)
+          SegLimit    \* most hop fields per segment (63 in SCION)
 
 -----------------------------------------------------------------------------
 (* Topologies.  Link: [a, aif, b, bif, t, mtu]; for t = "child" a is the parent of b. *)
@@ -187,7 +189,8 @@ Filter == /\ phase = "filter"
           /\ \E all \in BOOLEAN :       \* findAllIdentical only matters here
              LET paths == [j \in 1..Len(sols) |-> [ch |-> ChoiceOf(sols[j]), w |-> Cost(sols[j]),
                                                     q |-> PathOf(ChoiceOf(sols[j]), q.ups, q.cores, q.downs)]]
-                 short == SelectSeq(paths, LAMBDA x : ~Loopy(x.q.intfs))
+                 \* Combine skips solutions that do not fit the path header (fitsPathHeader), then filterLongPaths
+                 short == SelectSeq(paths, LAMBDA x : Representable(x.q, HopLimit, SegLimit) /\ ~Loopy(x.q.intfs))
                  \* index kept for a fingerprint: the first one with the latest expiry
                  keep(j) == \A i \in 1..Len(short) : short[i].q.intfs = short[j].q.intfs =>
                                (short[i].q.exp < short[j].q.exp \/ (short[i].q.exp = short[j].q.exp /\ i >= j))
@@ -203,7 +206,7 @@ Spec == Init /\ [][Next]_vars
 (* Properties. *)
 Def == DOMAIN defs
 DefPath(ch) == defs[ch]
-GoodDef == {ch \in Def : ~Loopy(DefPath(ch).intfs)}
+GoodDef == {ch \in Def : ~Loopy(DefPath(ch).intfs) /\ Representable(DefPath(ch), HopLimit, SegLimit)}
 
 \* C29 (design): the graph enumeration finds exactly the combinations of the definition
 GraphEqualsDefinition ==
@@ -256,7 +259,7 @@ MtuIsTopologyMinimum == phase = "filter" => \A ch \in Def : LET p == DefPath(ch)
 ResultOK ==
     phase = "done" =>
       /\ \A j \in 1..(Len(result) - 1) : result[j].q.w <= result[j + 1].q.w
-      /\ \A j \in 1..Len(result) : ~Loopy(result[j].q.intfs)
+      /\ \A j \in 1..Len(result) : ~Loopy(result[j].q.intfs) /\ Representable(result[j].q, HopLimit, SegLimit)
       /\ ~q.all => \A i, j \in 1..Len(result) : i # j => result[i].q.intfs # result[j].q.intfs
       /\ ~q.all => \A j \in 1..Len(result) : \A ch \in GoodDef :
                       DefPath(ch).intfs = result[j].q.intfs => DefPath(ch).exp <= result[j].q.exp
